@@ -5,7 +5,7 @@ CFG = {
     "rule": ("Font::save into a sandbox with sentinel files beside and above the target, the target absent / empty / another larger UFO / nested junk / a plain file / the font's "
              "own source: all 32 combinations of optional parts (lib, font info, extra layers, layer info, groups, kerning, features, data, images, guidelines) x API-built / loaded, "
              "240 random fonts with edit histories (store inserts/removes/gets, glyphs, layers, lib) over every pre-state, and crafted relative paths (store keys ../x, ../../x, ../../../x, ./a, q/../b, image key .., contents.plist values "
-             "../../x.glif and sub/../a.glif, a nested layer directory in layercontents.plist). Also: the target being a symbolic link to a populated directory, blank-only feature texts, empty-but-present containers (group without members, kerning entry without pairs, empty dict/array lib values), empty layers with colour or lib. Listing and content hashes of the whole sandbox before and after; every save repeated "
+             "../../x.glif and sub/../a.glif, a nested layer directory in layercontents.plist). Also: the target being a symbolic link to a populated directory, blank-only feature texts, empty-but-present containers (group without members, kerning entry without pairs, empty dict/array lib values), empty layers with colour or lib. Round 6: store files deleted / replaced by a directory / truncated on disk after the load and before any access (k of them), saved elsewhere and in place - a successful save writes exactly the keys the store reports, an error-state entry refuses with everything untouched; in-place targets through a symlinked parent / relative; a 1 MiB + 1 lazy file. Listing and content hashes of the whole sandbox before and after; every save repeated "
              "into a fresh path and compared byte for byte. non-trivial = target pre-populated or crafted path; distinct by recipe"),
     "exhaustive": {"quick": False, "thorough": False},
     "exhaustive_note": "the 32 part combinations x {API-built, loaded} and the 9 crafted path shapes are enumerated; fonts around them are sampled",
@@ -14,6 +14,7 @@ CFG = {
         "file contents other than store files are uninterpreted; byte identity is only demanded between two runs of the implementation itself (FRESH)",
     ],
     "assumptions": [
+        "after a save that fails late (after the wipe) on both sides, model and implementation are compared on the outcome class and on everything outside the target only: which files had been written before the failure depends on the write order of the stores, which no statement of C09 fixes (the spec rules, `frame` included, are evaluated on every outcome as before)",
         "store keys and contents.plist values with `..` escape the target: recorded findings (rejecting them is a policy decision with new error variants)",
         "layer directories named like top-level files (a crafted layercontents.plist naming `data` or `fontinfo.plist`) are not generated",
     ],
@@ -28,7 +29,8 @@ MANIFEST = {
              " Second phase: save_frame (guard safePaths, any outcome) and save_tree_depends_only_on_font at file-system level (equal sub-trees from any two well-formed pre-states) are proved; exactly_the_determined_files in expectedPaths form stays OPEN (oracle only)."
              " Third phase: exactly_the_determined_files in explicit form (kindAt fs' q = some k iff (q,k) in expectedPaths f t), and the load side: loaded_layer_dirs_single_component, loaded_store_keys_safe, loaded_font_safePaths, save_frame_loaded (guard only for glif paths). Generators: save_with_options, other spellings of the target, fonts from partial loads, absolute / trailing-separator layer directories."
              " Last phase: plan_runs_to_completion (for a WellPlanned font with safe paths the whole save succeeds from any well-formed file system in which the validators pass and the target's parent exists; success decided on the kind relation, Lemmas/PlanRuns.lean, citing the c16 builder's AbsFSOk success lemmas) and saved_tree_determined_by_font (both saves succeed, equal sub-trees, exactly expectedPaths)."
-             " Session 2026-09-29: source_plan_is_save_table (the rows of fn save_impl behind the wipe, regenerated from src/font.rs with their guard atoms, executed iff the atoms hold, produce exactly `plan`) and source_optional_gates (the gate of every optional file read off the regenerated table)."),
+             " Session 2026-09-29: source_plan_is_save_table (the rows of fn save_impl behind the wipe, regenerated from src/font.rs with their guard atoms, executed iff the atoms hold, produce exactly `plan`) and source_optional_gates (the gate of every optional file read off the regenerated table)."
+             " Last task: layerTable section (Layer::save_with_options of src/layer.rs with layerinfo_to_file_if_needed inlined, as (guard, step) rows) and source_layer_plan_is_layer_table (the regenerated rows, each executed iff its atoms hold, produce exactly planLayer: layerinfo.plist iff colour or lib)."),
     "design_ref": "5 / C09, 4",
     "note": "trusted: Lean kernel + 3 standard axioms; harness/driver glue; std::fs vs abstract FS. all DESIGN theorems of C09 proved",
     "technique": "Lean 4 model of save as a font-determined effect plan + whole-sandbox differential snapshots and fresh-path byte comparison",
